@@ -95,7 +95,10 @@ TYPE_VALUES = {
                         "line:99999999999999999999", "position:", "position:50%,line-left", "position:150%", "position:-1%",
                         "position:50%,zzz", "size:", "size:0%", "size:1000%", "size:50", "align:", "align:zzz", "align:left",
                         "align:right", "align:start", "align:end", "vertical:", "vertical:lr", "vertical:rl", "vertical:zz",
-                        "region:r", "a:b:c", ":", "::"],
+                        "region:r", "a:b:c", ":", "::",
+                        # numbers that overflow a float or exceed the integer-string conversion limit, in every numeric setting
+                        "size:" + "9" * 400 + "%", "position:" + "9" * 400 + "%", "line:" + "9" * 400 + "%", "line:" + "9" * 400,
+                        "size:1e400%", "size:" + LONG_NUM + "%", "line:-" + "9" * 19],
   "ws": ["", "﻿", "\x00", "\t"],
 }
 
